@@ -404,3 +404,169 @@ def judge_args(R, repo, f, call, want, key, msg):
       R.fail(k, (f, call), '%s: `%s` is not passed' % (msg, pname))
     else:
       R.unsure(k, (f, call), 'cannot tell what is passed as `%s`' % pname)
+
+
+# ---- located-anchor text comparison ---------------------------------------------------------------------------------
+# A rule that expects a particular expression/statement locates its anchor structurally (assignment target, callee,
+# return) and then compares.  Equal text: held.  Same syntactic skeleton with a leaf swapped for a *different existing*
+# name (both the expected and the found name are still in use in the function), a different constant or a different
+# operator: positive evidence of a changed relation.  Anything else (restructured code, renamed locals, extracted
+# helpers): inconclusive.
+
+def _vocab(f, expected):
+  """Names whose exchange counts as positive evidence: identifiers of the expected texts themselves and the parameters of
+  f and of its enclosing functions (stable API names).  A found name outside this set may be a renamed local."""
+  out = set()
+  for e in expected:
+    try:
+      t = ast.parse(e)
+    except SyntaxError:
+      continue
+    for n in ast.walk(t):
+      if isinstance(n, ast.Name):
+        out.add(n.id)
+      elif isinstance(n, ast.Attribute):
+        out.add(n.attr)
+  node = astu._n(f)
+  for fn in [node] + [a for a in astu.ancestors(node)]:
+    if isinstance(fn, (ast.FunctionDef, ast.AsyncFunctionDef)):
+      out.update(astu.params(fn))
+  return out
+
+
+def delta(exp, act, scope_names):
+  """'same' | 'swap' | 'other' between an expected and an actual AST."""
+  if type(exp) is not type(act):
+    return 'other'
+  if isinstance(exp, ast.Name):
+    if exp.id == act.id:
+      return 'same'
+    return 'swap' if (exp.id in scope_names and act.id in scope_names) else 'other'
+  if isinstance(exp, ast.Constant):
+    return 'same' if (exp.value == act.value and type(exp.value) is type(act.value)) else 'swap'
+  res = 'same'
+  for fld in exp._fields:
+    a, b = getattr(exp, fld, None), getattr(act, fld, None)
+    if fld in ('ctx', 'type_comment', 'kind', 'lineno'):
+      continue
+    if isinstance(a, list):
+      if not isinstance(b, list) or len(a) != len(b):
+        return 'other'
+      for x, y in zip(a, b):
+        d = delta(x, y, scope_names) if isinstance(x, ast.AST) else ('same' if x == y else 'other')
+        if d == 'other':
+          return 'other'
+        if d == 'swap':
+          res = 'swap'
+    elif isinstance(a, ast.AST):
+      if isinstance(a, (ast.operator, ast.unaryop, ast.cmpop, ast.boolop)):
+        if type(a) is not type(b):
+          res = 'swap'
+        continue
+      if not isinstance(b, ast.AST):
+        return 'other'
+      d = delta(a, b, scope_names)
+      if d == 'other':
+        return 'other'
+      if d == 'swap':
+        res = 'swap'
+    else:
+      if a != b:
+        if fld == 'attr' and isinstance(a, str) and isinstance(b, str) and a in scope_names and b in scope_names:
+          res = 'swap'
+        else:
+          return 'other'
+  return res
+
+
+def _parse_expr(src_text):
+  return ast.parse(src_text, mode='eval').body
+
+
+def judge_expr(R, f, node, expected, key, where, msg, follow=True, vocab=()):
+  """`node` (located by the rule) must read as one of the `expected` source texts."""
+  expected = [expected] if isinstance(expected, str) else list(expected)
+  if node is None:
+    R.unsure(key, where, 'expression not found (%s)' % msg)
+    return False
+  alts = [e for e in (expand(f, node) if follow else [node]) if isinstance(e, ast.AST)]
+  if any(astu.src(a) in expected for a in alts):
+    R.ok(key, where)
+    return True
+  names = _vocab(f, expected) | set(vocab)
+  for e in expected:
+    try:
+      ex = _parse_expr(e)
+    except SyntaxError:
+      continue
+    for a in alts:
+      if delta(ex, a, names) == 'swap':
+        R.fail(key, where, '%s: found `%s`, expected `%s`' % (msg, astu.short(a, 100), e))
+        return False
+  R.unsure(key, where, '%s: `%s` is not recognised (expected `%s`)' % (msg, astu.short(node, 100), expected[0]))
+  return False
+
+
+def _anchor(st):
+  if isinstance(st, (ast.Assign, ast.AnnAssign, ast.AugAssign)):
+    t = st.targets[0] if isinstance(st, ast.Assign) else st.target
+    return ('assign', astu.src(t))
+  if isinstance(st, ast.Return):
+    return ('return',)
+  if isinstance(st, ast.Raise):
+    return ('raise',)
+  if isinstance(st, ast.Expr) and isinstance(st.value, ast.Call):
+    return ('call', astu.call_name(st.value) or astu.call_tail(st.value))
+  if isinstance(st, ast.Assert):
+    return ('assert',)
+  return None
+
+
+def judge_stmts(R, f, expected, key, where, msg, vocab=()):
+  """Every statement text in `expected` must occur in f (docstrings ignored).  Anchors: assignment target / return /
+  raise / called name.  See the comment above for the three outcomes."""
+  expected = [expected] if isinstance(expected, str) else list(expected)
+  node = astu._n(f)
+  stmts = [n for n in astu.body_walk(node) if isinstance(n, ast.stmt) and not isinstance(n, (ast.If, ast.For, ast.While, ast.With, ast.Try, ast.FunctionDef, ast.ClassDef))]
+  names = _vocab(f, expected) | set(vocab)
+  texts = {astu.src(s_) for s_ in stmts}
+  verdict, detail = 'ok', ''
+  for e in expected:
+    if e in texts:
+      continue
+    try:
+      ex = ast.parse(e).body[0]
+    except SyntaxError:
+      verdict = 'unsure' if verdict != 'fail' else verdict
+      continue
+    cands = [s_ for s_ in stmts if _anchor(s_) is not None and _anchor(s_) == _anchor(ex)]
+    ds = [(delta(ex, s_, names), s_) for s_ in cands]
+    if any(d == 'same' for d, _ in ds):
+      continue
+    sw = [s_ for d, s_ in ds if d == 'swap']
+    if sw:
+      verdict, detail = 'fail', 'found `%s`, expected `%s`' % (astu.short(sw[0], 100), e)
+    elif verdict != 'fail':
+      verdict, detail = 'unsure', 'statement `%s` not found' % e
+  if verdict == 'ok':
+    R.ok(key, where)
+  elif verdict == 'fail':
+    R.fail(key, where, '%s: %s' % (msg, detail))
+  else:
+    R.unsure(key, where, '%s: %s' % (msg, detail))
+  return verdict == 'ok'
+
+
+def judge_call_args(R, repo, f, call, expected_pos, key, where, msg, forwarded_kw=(), vocab=()):
+  """Positional arguments of a located call must read as expected_pos (texts); keywords in forwarded_kw must be passed on unchanged."""
+  if call is None:
+    R.unsure(key, where, 'call not found (%s)' % msg)
+    return
+  if any(isinstance(a, ast.Starred) for a in call.args[:len(expected_pos)]) or len(call.args) < len(expected_pos):
+    R.unsure(key, where, '%s: positional arguments of `%s` not recognised' % (msg, astu.short(call, 100)))
+  else:
+    for i, e in enumerate(expected_pos):
+      if e is not None:
+        judge_expr(R, f, call.args[i], e, '%s :: arg %d' % (key, i), where, msg, vocab=set(vocab) | {n.id for x in expected_pos if x for n in ast.walk(ast.parse(x)) if isinstance(n, ast.Name)})
+  if forwarded_kw:
+    judge_forward(R, repo, f, call, list(forwarded_kw), key, msg)
